@@ -834,8 +834,15 @@ def _arange(ex, st, args, kwargs, node):
         lo, hi = 0, args[0]
     else:
         lo, hi = args[0], args[1]
-    if len(args) > 2 and py_number(args[2]) != 1:
-        raise Unsupported("arange step")
+    if len(args) > 2 and (is_sym(py_number(args[2])) or py_number(args[2]) != 1):
+        # general step: elements lo + j*step; the element count ceil((hi-lo)/step) is left to an uninterpreted
+        # function of (lo, hi, step) with value >= 0 (A3: floating-point rounding of the count is not modelled)
+        lo_r, hi_r, step_r = to_real(_as_float(lo)), to_real(_as_float(hi)), to_real(_as_float(args[2]))
+        f = ex.ctx.uf("arange_len", z3.RealSort(), z3.RealSort(), z3.RealSort(), z3.IntSort())
+        n = f(lo_r, hi_r, step_r)
+        if not _mentions_bound(n):
+            ex.ctx.global_axioms.append(n >= 0)
+        return st.new_cell(Seq("nd", n, fn=lambda j: ex.arith("+", lo_r, ex.arith("*", to_real(to_int(j)), step_r)), et="real"))
     n = ex.vmax(0, ex.arith("-", hi, lo))
     if isinstance(n, int):
         return st.new_cell(Seq("nd", n, items=[ex.arith("+", lo, k) for k in range(n)], et="int"))
@@ -926,7 +933,22 @@ def _tile(ex, st, args, kwargs, node):
 
 @intrinsic(np.interp)
 def _interp(ex, st, args, kwargs, node):
-    raise Unsupported("np.interp (not modelled)")
+    """np.interp(x, xp, fp) for a scalar x: an uninterpreted function of x, one function symbol per (xp, fp) pair named
+    by the arrays' structure (element at a generic index and length) - deterministic, no facts assumed (A3)"""
+    if len(args) != 3 or kwargs:
+        raise Unsupported("np.interp with left/right/period")
+    x, xp, fp = args
+    if ex.is_seq(x):
+        raise Unsupported("np.interp over an array of points")
+    import hashlib
+    parts = []
+    for a in (xp, fp):
+        sq = ex.seq_of(st, a, node)
+        probe = sq.get(z3.Int("$memo_k")) if sq.items is None else tuple(sq.items)
+        parts.append((probe.sexpr() if is_sym(probe) else repr(probe), sq.n.sexpr() if is_sym(sq.n) else repr(sq.n)))
+    name = "interp!" + hashlib.md5(repr(parts).encode()).hexdigest()[:10]
+    f = ex.ctx.uf(name, z3.RealSort(), z3.RealSort())
+    return f(to_real(_as_float(x)))
 
 
 @intrinsic(round)
